@@ -100,3 +100,23 @@ def split_tokens(tokens, rnd, max_files=3, prefix="f", layout=True):
     for n, ts in files.items():
         res[n] = ren(ts)
     return res, "main"
+
+
+_RESPELL_KINDS = [L.RUN, L.WITH, L.DO, L.LOOP, L.WHILE, L.GOTO, L.IF, L.THEN, L.STOP, L.END, L.PROGRAM, L.IN, L.OUT, L.DEFINE, L.AS, L.PRIORITY]
+
+
+def respell(text, rnd, p=0.5):
+    """give every keyword occurrence (outside quoted names and comments) a random documented spelling"""
+    import re
+    table = {}
+    for k in _RESPELL_KINDS:
+        for w in L.SPELL[k]:
+            table[w] = L.SPELL[k]
+    rx = re.compile(r'"[^"]*"|//[^\n]*|END DEFINE|End Define|end define|\b(?:%s)\b' % "|".join(sorted(table, key=len, reverse=True)))
+
+    def f(m):
+        w = m.group(0)
+        if w in table and rnd.random() < p:
+            return rnd.choice(table[w])
+        return w
+    return rx.sub(f, text)
